@@ -340,17 +340,30 @@ pub fn check(c: &Case) -> CheckResult {
     let wire: Vec<u8> = frames.iter().flat_map(|(b, _)| b.clone()).collect();
     let frames_out: Vec<Vec<u8>> = frames.iter().map(|(b, _)| b.clone()).collect();
 
+    // Handlers of notifies on off-reader routes finish on their own schedule (there is
+    // no response to wait for): give the observation log time to reach the twin's size
+    // before it is compared. Too many observations still fail at once; too few fail
+    // after the wait.
+    let want_seen = twin_seen.len();
+    let settle = |b: &Built| {
+        let deadline = std::time::Instant::now() + if failure_seen() { std::time::Duration::from_millis(600) } else { std::time::Duration::from_secs(8) };
+        while (b.probe.seen.lock().unwrap().len() < want_seen || mwc(b) < twin_mw) && std::time::Instant::now() < deadline {
+            std::thread::sleep(std::time::Duration::from_millis(1));
+        }
+    };
+
     // ---- four dispatch paths
     let mut per_transport: Vec<(&'static str, Vec<Frame>, Vec<Seen>, u64, bool)> = Vec::new();
     {
         let b = build(&program);
         let server = Server::new(b.router.clone());
-        let l = server.listen("127.0.0.1:0").map_err(|e| Fail::new("harness-listen", e.to_string()))?;
+        let l = server.listen(crate::util::lo0().as_str()).map_err(|e| Fail::new("harness-listen", e.to_string()))?;
         let addr = l.local_addr().unwrap();
         std::thread::spawn(move || {
             let _ = server.serve(l);
         });
         let got = block_on(drive_tcp(addr, wire.clone(), c.segments.clone(), expect_n))?;
+        settle(&b);
         per_transport.push(("Server", got, b.probe.take(), mwc(&b), true));
     }
     {
@@ -358,7 +371,7 @@ pub fn check(c: &Case) -> CheckResult {
         let router = b.router.clone();
         let (wire2, segs) = (wire.clone(), c.segments.clone());
         let got = block_on(async move {
-            let l = AsyncServer::listen("127.0.0.1:0").await.map_err(|e| Fail::new("harness-listen", e.to_string()))?;
+            let l = AsyncServer::listen(crate::util::lo0().as_str()).await.map_err(|e| Fail::new("harness-listen", e.to_string()))?;
             let addr = l.local_addr().unwrap();
             let srv = tokio::spawn(async move {
                 let _ = AsyncServer::new(router).serve(l).await;
@@ -367,6 +380,7 @@ pub fn check(c: &Case) -> CheckResult {
             srv.abort();
             r
         })?;
+        settle(&b);
         per_transport.push(("AsyncServer", got, b.probe.take(), mwc(&b), true));
     }
     {
@@ -374,6 +388,7 @@ pub fn check(c: &Case) -> CheckResult {
         let shared = WebSocketServer::new(b.router.clone()).with_offreader_limit(0).into_shared();
         let fo = frames_out.clone();
         let got = block_on(async move { drive_ws(&shared, fo, expect_n).await })?;
+        settle(&b);
         per_transport.push(("WebSocket", got, b.probe.take(), mwc(&b), false));
     }
 
